@@ -86,6 +86,10 @@ pub fn val(ix: u8) -> Option<RefAtt> {
         3 => Some(RefAtt::Atom(1, b"A".to_vec())),
         4 => Some(RefAtt::Atom(0, Vec::new())),
         5 => Some(RefAtt::Atom(0, b"B".to_vec())),
+        // re-assert a portal: writing the value the slot already holds is a valid op that still
+        // DECLARES a write of the portal slot (conflicts with every rewrite reached through it)
+        254 => Some(RefAtt::Descend(1)),
+        255 => Some(RefAtt::Descend(2)),
         _ => Some(RefAtt::Atom(2, vec![ix])),
     }
 }
